@@ -287,7 +287,50 @@ func genBody(c *ex.Ctx) {
 		g.list(fn.lean, fn.file+" `"+fn.name+"`", fd.Body.List, fn.depth)
 	}
 	sb.WriteString(g.defs.String())
+	// the constants of key.go the interpreter's table (Model/InputBody.readGlobal) uses: the iota blocks
+	// of EventType (`= iota`) and ModifierMask (`= 1 << iota`)
+	if fk := c.Parse("key.go"); fk != nil {
+		fmt.Fprintf(&sb, "/-- key.go: the `EventType` constants (iota block). -/\ndef eventTypes : List (String × Nat) := %s\n\n", iotaBlock(c, fk, "EventPress"))
+		fmt.Fprintf(&sb, "/-- key.go: the `ModifierMask` constants (`1 << iota` block). -/\ndef modifierMasks : List (String × Nat) := %s\n\n", iotaBlock(c, fk, "ModShift"))
+	}
 	fmt.Fprintf(&sb, "/-- Number of nodes the translator could not render. -/\ndef unknownCount : Nat := %d\n\n", g.t.Unknown)
 	sb.WriteString("end VaxisModel.Gen.InputBody\n")
 	c.Write("InputBody.lean", sb.String())
+}
+
+// iotaBlock renders the const block whose first name is `first` and whose first value is `iota` or
+// `1 << iota` as a list of (name, value); anything else gives the empty list.
+func iotaBlock(c *ex.Ctx, f *ast.File, first string) string {
+	for _, d := range f.Decls {
+		gd, ok := d.(*ast.GenDecl)
+		if !ok || gd.Tok != token.CONST || len(gd.Specs) == 0 {
+			continue
+		}
+		vs0, ok := gd.Specs[0].(*ast.ValueSpec)
+		if !ok || len(vs0.Names) != 1 || vs0.Names[0].Name != first || len(vs0.Values) != 1 {
+			continue
+		}
+		shift := false
+		switch c.Src(vs0.Values[0]) {
+		case "iota":
+		case "1 << iota":
+			shift = true
+		default:
+			return "[]"
+		}
+		var parts []string
+		for i, sp := range gd.Specs {
+			vs, ok := sp.(*ast.ValueSpec)
+			if !ok || len(vs.Names) != 1 || (i > 0 && len(vs.Values) != 0) {
+				return "[]"
+			}
+			v := i
+			if shift {
+				v = 1 << uint(i)
+			}
+			parts = append(parts, fmt.Sprintf("(%s, %d)", ex.LeanStr(vs.Names[0].Name), v))
+		}
+		return "[" + strings.Join(parts, ", ") + "]"
+	}
+	return "[]"
 }
